@@ -7,7 +7,7 @@ const { stable } = require('../lib/canon');
 const OPTS = JSON.stringify({ transformOn: true, optimize: false });
 const USER_VALUES = { userSlot: 'user_slot', userIsSlot: 'user_isSlot', userCreateVNode: 'user_createVNode', userFragment: 'user_Fragment', userIsVNode: 'user_isVNode' };
 
-function requests(c) { return [{ src: H.renderHistory(c.items), want: ['eval', 'free', 'gen'], opts: c.pragma ? JSON.stringify({ transformOn: true, optimize: false, pragma: 'hh' }) : OPTS }]; }
+function requests(c) { if (c.ts) return [{ src: H.renderHistory(c.items, true), ts: true, want: ['eval', 'free', 'gen'], opts: JSON.stringify({ transformOn: true, resolveType: true }) }]; return [{ src: H.renderHistory(c.items), want: ['eval', 'free', 'gen'], opts: c.pragma ? JSON.stringify({ transformOn: true, optimize: false, pragma: 'hh' }) : OPTS }]; }
 
 function findThrows(v, path, out) {
   if (v && typeof v === 'object') {
@@ -26,6 +26,7 @@ function judge(c, resps) {
   if (Array.isArray(r.free_out)) {
     const fin = new Set(r.free_in || []);
     if (c.pragma) fin.add('hh'); // "plus a configured pragma"
+    if (c.ts) for (const n of ['String', 'Number', 'Boolean', 'Object', 'Function', 'Array', 'Promise', 'Date', 'BigInt', 'Symbol']) fin.add(n); // runtime constructors derived from types
     const extra = r.free_out.filter((n) => !fin.has(n));
     if (extra.length) viol.push({ clause: 'free-vars', diff: 'free:' + extra.map((n) => n.replace(/\d+$/, '')).sort().join(','), msg: `output has free variables the input does not have: ${extra.join(', ')}`, expected: r.free_in, observed: r.free_out });
   } else viol.push({ clause: 'free-vars', diff: 'reparse-failed', msg: 'printed output could not be re-parsed for scope analysis' });
@@ -59,7 +60,12 @@ module.exports = {
   level: 'model_checking',
   rule: 'explicit-state BFS over module-item histories (item = syntactic context ∘ lowering that needs a helper/temporary, distractor incl. user declarations with colliding names and user imports from vue, statement-level self-assignment forms); every history is transformed by the real visitor and judged statically (free variables of the re-parsed, re-resolved output ⊆ those of the input; every generated binding referenced) and dynamically (module loaded, every context activated twice, slots invoked: no ReferenceError/TypeError, colliding user bindings keep their values, the v-model listener assigns the user\'s $event). Distinct = distinct (observation vector, generated-binding list).',
   assumptions: ['SWC resolver for the scope analysis of the re-parsed output', 'span criterion for "generated"', 'mock Vue runtime and node evaluator (strict mode, as ES modules are)'],
-  spaces: (tier) => G.spaces(tier, (items) => ({ items })).concat([{
+  prepare: async (tier) => (tier === 'thorough' ? G.skeleton(3, OPTS) : null),
+  spaces: (tier, prepared) => G.spaces(tier, (items) => ({ items })).concat(tier === 'thorough' ? [G.canonicalSpace(prepared, (items) => ({ items }))] : []).concat([{
+    name: 'T:tsx-resolveType',
+    bounds: { note: '.tsx modules with resolveType on: every TS item alone and every ordered pair of TS items (derived props/emits helpers such as mergeDefaults must be used)', items: Object.keys(H.T) },
+    *gen() { const T = Object.keys(H.T).map((t) => ({ t })); for (const a of T) yield { items: [a], ts: true }; for (const a of T) for (const b of T) yield { items: [a, b], ts: true }; for (const a of T) for (const b of G.CORE) if (!(b.d && b.d === 'importFragmentAlias')) yield { items: [a, b], ts: true }; },
+  }, {
     name: 'P:pragma-configured',
     bounds: { note: 'pragma option set (vnode calls go to a global stub, createVNode is not imported): all items alone, core pairs', max_length: 2 },
     *gen() {
@@ -68,7 +74,7 @@ module.exports = {
     },
   }]),
   requests, judge,
-  *shrink(c) { for (const items of G.shrinkItems(c.items)) if (items.length) yield { items, pragma: c.pragma }; if (c.pragma) yield { items: c.items }; },
-  caseKey: (c) => G.key(c.items) + (c.pragma ? ' {pragma}' : ''),
+  *shrink(c) { for (const items of G.shrinkItems(c.items)) if (items.length) yield { items, pragma: c.pragma, ts: c.ts }; if (c.pragma) yield { items: c.items }; },
+  caseKey: (c) => G.key(c.items) + (c.pragma ? ' {pragma}' : '') + (c.ts ? ' {tsx resolveType}' : ''),
   depth: (c) => c.items.length,
 };
